@@ -1195,7 +1195,8 @@ void simplecpp::TokenList::constFoldMulDivRem(Token *tok)
 
         long long result;
         if (tok->op == '*') {
-            result = (stringToLL(tok->previous->str()) * stringToLL(tok->next->str()));
+            // unsigned arithmetic: signed overflow is undefined behaviour
+            result = static_cast<long long>(static_cast<unsigned long long>(stringToLL(tok->previous->str())) * static_cast<unsigned long long>(stringToLL(tok->next->str())));
         }
         else if (tok->op == '/' || tok->op == '%') {
             const long long rhs = stringToLL(tok->next->str());
@@ -1228,10 +1229,11 @@ void simplecpp::TokenList::constFoldAddSub(Token *tok)
             continue;
 
         long long result;
+        // unsigned arithmetic: signed overflow is undefined behaviour
         if (tok->op == '+')
-            result = stringToLL(tok->previous->str()) + stringToLL(tok->next->str());
+            result = static_cast<long long>(static_cast<unsigned long long>(stringToLL(tok->previous->str())) + static_cast<unsigned long long>(stringToLL(tok->next->str())));
         else if (tok->op == '-')
-            result = stringToLL(tok->previous->str()) - stringToLL(tok->next->str());
+            result = static_cast<long long>(static_cast<unsigned long long>(stringToLL(tok->previous->str())) - static_cast<unsigned long long>(stringToLL(tok->next->str())));
         else
             continue;
 
